@@ -177,6 +177,7 @@ def escClass (it : Item) (raw : Cls) : Cls :=
         match md.outcome with
         | .returns .serializeErr => .serialize              -- SerializeError from dumps: reported, re-raised
         | .returns _ => .other                              -- dumps raised something else under a @callback: re-raised
+        | .returnsStream => .other                          -- (never raised: a stream answer leaves nothing to escape)
         | .raises e _ => excCls raw e                       -- re-raise rule: callback ∨ Communication ∨ Security
       | _ => .other
 
